@@ -57,6 +57,11 @@ class ExprMixin:
 
     def ex_Name(self, n, st, frame, out):
         if n.id in st.env:
+            mu = st.env.get("<maybe-unbound>")
+            if mu and ("const", n.id) in mu and isinstance(n.ctx, ast.Load):
+                # bound on some of the paths that reach this read only: UnboundLocalError on the others
+                self.raise_star(st, out)
+                self.maybe_unbound.append((frame.func.qual, n.id, getattr(n, "lineno", 0)))
             return st.env[n.id], st
         if n.id in frame.localfuncs:
             return V(("func", frame.localfuncs[n.id].qual)), st
@@ -311,6 +316,12 @@ class ExprMixin:
                 return ("slice", t)
             return frozenset(unmark(t) for t in recv), st
         key, st = self.eval(n.slice, st, frame, out)
+        if self.assume is not None and recv and all(tag(r) == "yaml" for r in recv):
+            # scenario "this key is absent from the loaded configuration": the subscript raises KeyError
+            a = ("cmp", "in", key, recv)
+            if self.assume(a) is False or F.implied(st.facts, a) is False:
+                out.add_raise("KeyError", st)
+                raise self._abort()
         return self.getitem(recv, key, st, n), st
 
     def getitem(self, recv, key, st, node, default=None):
@@ -349,6 +360,13 @@ class ExprMixin:
                 res |= st.lists.get(r, EMPTY)
             elif tg == "listof":
                 res |= r[1]
+            elif tg == "obj" and self.p.is_namedtuple(r[1]):
+                for k in key:
+                    if is_const(k) and isinstance(k[1], int) and -len(r[2]) <= k[1] < len(r[2]):
+                        res |= r[2][k[1]][1]
+                    else:
+                        for _f, x in r[2]:
+                            res |= x
             else:
                 for k in key:
                     res.add(("item", r, k))
@@ -399,6 +417,11 @@ class ExprMixin:
                 if f == attr:
                     return vv
             return V(("iattr", r, attr))
+        if tg == "direntry":
+            if attr == "name":
+                return V(("listed", r[1]))
+            if attr == "path":
+                return V(J([r[1], ("listed", r[1])]))
         if tg == "tmpfile" and attr == "name":
             return V(("tmpname", r[1], r[2]))
         if tg == "handle" and attr == "name":
@@ -427,6 +450,9 @@ class ExprMixin:
             return V(C(v.value))
         if isinstance(v, (ast.List, ast.Tuple)):
             return V(("classlist", cls, attr))
+        if isinstance(v, ast.Dict) and v.keys and all(isinstance(k, ast.Constant) for k in v.keys) and all(isinstance(x, ast.Constant) for x in v.values):
+            # a class-level table of constants (entity name -> attribute name, ...)
+            return V(("dictlit", tuple((C(k.value), V(C(x.value))) for k, x in zip(v.keys, v.values))))
         return None
 
     def ex_ListComp(self, n, st, frame, out):
@@ -596,7 +622,8 @@ class ExprMixin:
             return t[1] is None
         if tg in ("join", "root", "tmpname", "sibling", "H", "cat", "content", "inst", "obj", "tmpfile",
                   "handle", "self", "list", "listof", "dictlit", "tuple", "shard", "bool", "probe",
-                  "strop", "int", "parent", "name", "hashof", "dictzip", "listdir", "listed", "dictobj"):
+                  "strop", "int", "parent", "name", "hashof", "dictzip", "listdir", "listed", "dictobj",
+                  "func", "boundmethod", "class", "module", "excobj"):
             return False
         return None  # unknown
 
@@ -791,6 +818,11 @@ class ExprMixin:
             self.raise_star(st, out)
             st = self.emit("PROBE", d, [args[0]], n, st, frame)
             return frozenset(("listdir", t) for t in args[0]), st
+        if d == "os.scandir":
+            # the directory's entries as DirEntry objects (name / path / is_file()); also usable as a context manager
+            self.raise_star(st, out)
+            st = self.emit("PROBE", "os.listdir", [args[0]], n, st, frame)
+            return V(("listof", frozenset(("direntry", t) for t in args[0]))), st
         if d == "os.walk":
             st = self.emit("PROBE", d, [args[0]], n, st, frame)
             return frozenset(("walk", t) for t in args[0]), st
@@ -904,13 +936,13 @@ class ExprMixin:
 
     # --- plain names -----------------------------------------------------
     def call_name(self, name, n, st, frame, out):
-        if name in frame.localfuncs or (name in st.env and any(tag(t) == "func" for t in st.env[name])):
+        if name in frame.localfuncs and name not in st.env:
             args, kw, st = self.eval_args(n, st, frame, out)
-            f = frame.localfuncs.get(name)
-            if f is None:
-                q = next(t[1] for t in st.env[name] if tag(t) == "func")
-                f = self.p.funcs[q]
-            return self.inline(f, args, kw, st, frame, n, out, closure=True)
+            return self.inline(frame.localfuncs[name], args, kw, st, frame, n, out, closure=True)
+        if name in st.env and any(tag(t) in ("func", "boundmethod") for t in st.env[name]):
+            # a local that holds functions / bound methods (picked from a table, passed as an argument): every one it may hold
+            args, kw, st = self.eval_args(n, st, frame, out)
+            return self.call_value(st.env[name], args, kw, n, st, frame, out)
         if name in self.p.classes:
             args, kw, st = self.eval_args(n, st, frame, out)
             return self.construct(name, args, kw, n, st, frame, out)
@@ -1051,6 +1083,12 @@ class ExprMixin:
 
     def call_on_term(self, r, meth, args, kw, n, st, frame, out):
         tg = tag(r)
+        if tg == "direntry" and meth in ("is_file", "is_dir", "exists"):
+            pth = V(J([r[1], ("listed", r[1])]))
+            st = self.emit("PROBE", "Path." + meth, [pth], n, st, frame)
+            return V(("probe", meth, pth, st.muts)), st
+        if tg == "obj" and meth == "_asdict" and self.p.is_namedtuple(r[1]):
+            return V(("dictlit", tuple((C(f), vv) for f, vv in r[2]))), st
         if tg == "self" and r[1] == "FileHashStore" and frame.func.cls != "FileHashStore":
             return self.api_call(meth, args, kw, n, st, frame, out)
         if tg in ("self", "inst", "class"):
@@ -1108,12 +1146,26 @@ class ExprMixin:
             if meth == "keys":
                 return V(("tuple", tuple(V(k) for k, vv in r[1]))), st
             return V(("tuple", tuple(vv for k, vv in r[1]))), st
+        if tg == "yaml" and meth == "get" and self.assume is not None and args and self.assume(("cmp", "in", args[0], V(r))) is False:
+            return (args[1] if len(args) > 1 else V(NONE)), st
         if tg in ("dictlit", "dictobj", "dictzip", "item", "yaml") and meth == "get":
             v = self.getitem(V(r), args[0], st, n)
             # .get never raises; absent key -> None/default
             dflt = args[1] if len(args) > 1 else V(NONE)
             if tg == "dictlit" and all(tag(x) != "item" for x in v):
                 return v, st
+            if tg == "dictlit" and all(is_const(k) for k, _ in r[1]):
+                # a table with constant keys: a constant key that is not in it gives the default, an unknown key any row or the default
+                res = set()
+                for k in args[0]:
+                    if is_const(k):
+                        hit = [vv for kt, vv in r[1] if kt == k]
+                        res |= hit[0] if hit else dflt
+                    else:
+                        for _kt, vv in r[1]:
+                            res |= vv
+                        res |= dflt
+                return frozenset(res), st
             return v, st
         if meth == "with_name" or is_rooted(r) or tg in ("join", "sibling", "parent", "tmpname"):
             # pathlib methods on a path term
@@ -1210,6 +1262,10 @@ class ExprMixin:
         cur = None
         for t in fv:
             tg = tag(t)
+            if t == NONE:
+                # calling None: TypeError, no normal continuation from this alternative
+                self.raise_star(st, out)
+                continue
             if tg == "func":
                 f = self.p.funcs.get(t[1])
                 if f is not None:
